@@ -222,8 +222,22 @@ func faultedStreams(base []byte, rng *splitmix, maxExhaustive int, samples int, 
 				return
 			}
 		case 7: // seed strings
-			seeds := []string{"", "0", "zzzzzzzzzzzzzzzzzzzzzzzzz", "abc123", "A", "a b", "é", "seed!", "-1", "9999999999999999999999"}
-			if !emit(streamCase{Kind: "seed", Readers: oneReader(base), Seed: seeds[rng.intn(len(seeds))]}) {
+			seeds := []string{"", "0", "zzzzzzzzzzzzzzzzzzzzzzzzz", "abc123", "A", "a b", "é", "seed!", "-1", "9999999999999999999999", "000", "z", "1y2p0ij32e8e7"}
+			seed := seeds[rng.intn(len(seeds))]
+			if rng.chance(60) {
+				// a random seed of random length, mostly over the valid alphabet
+				alphabet := "0123456789abcdefghijklmnopqrstuvwxyz"
+				if rng.chance(15) {
+					alphabet += "A_ -.\x00é"
+				}
+				ln := 1 + rng.intn(40)
+				b := make([]byte, ln)
+				for i := range b {
+					b[i] = alphabet[rng.intn(len(alphabet))]
+				}
+				seed = string(b)
+			}
+			if !emit(streamCase{Kind: "seed", Readers: oneReader(base), Seed: seed}) {
 				return
 			}
 		case 8: // the fully corrupted end of the scale
